@@ -18,6 +18,9 @@ inductive ABy where
 
 abbrev Bytes := List ABy
 
+/-- the line break byte -/
+abbrev NL : ABy := .lead '\n'
+
 def charBytes (c : Char) : Bytes := .lead c :: List.replicate (c.utf8Size - 1) .cont
 
 def bytesOf : List Char → Bytes
